@@ -126,4 +126,4 @@ Section Dft.
     - unfold idft. f_equal. apply sumf_ext. intros k _. rewrite Z.mul_0_r. simpl. rewrite W_0. ring.
     - rewrite shift_theorem by exact Hm. rewrite Z.sub_0_r, Z.mod_small, Nat2Z.id by lia. reflexivity. Qed.
 End Dft.
-Print Assumptions shift_theorem.
+
